@@ -908,13 +908,21 @@ def build_dataset(ctx, rng, nns, fmt, lstyle, attached=False, overlap=False):
     types = [t for t in TYPES if U.SUPPORT[fmt].get(t) in (1, "as-standard")]
     used_titles = set()
 
+    dup_titles = []
+
     def title(prefix):
+        # block titles may legitimately repeat (the writer documents that it makes them unique with a numeric
+        # suffix): with some probability an earlier title - including ones that need NEXUS quoting - is used again
+        if prefix == "ns" and dup_titles and rng.random() < 0.35:
+            return rng.choice(dup_titles)
         while True:
-            t = rng.choice([None, None, prefix + str(rng.randint(0, 99))] + (
+            t = rng.choice([None, None, prefix + str(rng.randint(0, 99)), prefix + " block_" + str(rng.randint(0, 9))] + (
                 U.gen_labels(rng, 1, "hostile-xmlsafe" if fmt == "nexml" else "hostile") if rng.random() < 0.3 else []))
             if t is None or t.upper() not in used_titles:
                 if t is not None:
                     used_titles.add(t.upper())
+                    if prefix == "ns":
+                        dup_titles.append(t)
                 return t
     # '=' and '\\' are left unquoted in tree statements (finding of C02): not used where tree lists are written
     # a label that is exactly one Newick punctuation character is quoted by the writer but still read as
